@@ -403,6 +403,20 @@ Proof.
   split; [reflexivity|]. apply relc_closed_world. exact RC.
 Qed.
 
+Theorem open_missing_other_accepted w s l name2 popt hdropt cb : RelC w s l ->
+  name2 ++ ext_data <> name ++ ext_data -> name2 ++ ext_data <> name ++ ext_index ->
+  snd (judge_step s (OOpen name2 popt hdropt [] cb)) (snd (step' w (OOpen name2 popt hdropt [] cb))) = true
+  /\ RelC (fst (step' w (OOpen name2 popt hdropt [] cb))) (fst (judge_step s (OOpen name2 popt hdropt [] cb))) l.
+Proof.
+  intros RC D1 D2. pose proof RC as (Hw & Hs & _ & Oth & F & DET).
+  assert (G : fs_get (w_fs w) (name2 ++ ext_data) = None) by (apply Oth; assumption).
+  assert (M : fs_mem (w_fs w) (name2 ++ ext_data) = false) by (rewrite CacheFacts.fs_mem_get, G; reflexivity).
+  cbn [step' step w_fs]. rewrite (builder_open_missing (w_fs w) name2 popt hdropt [] cb M). cbn [fst snd open_err].
+  unfold judge_step, spec_step. rewrite Hs. cbn [spec_step']. unfold spec_open. rewrite (close_handle_closed _ _ s Hs). cbn [existsb].
+  change (name2 ++ s_ext_data) with (name2 ++ ext_data). rewrite <- F, G. cbn [fst snd is_err].
+  split; [reflexivity|]. apply relc_closed_world. exact RC.
+Qed.
+
 (* ---- crashes: the data file cut at any byte of its data region, the index file lost or cut at any byte, then an open ---- *)
 Definition closed_agree (w:world) (s:sstate) : Prop :=
   w_h w = None /\ ss_h s = None /\ (forall g, fs_get (w_fs w) g = sfs_get (ss_fs s) g).
@@ -605,21 +619,28 @@ Qed.
 
 (* ---- histories with clean close-and-reopen steps in between (C04 at the level of the judge) ---- *)
 (* calls that are refused on the closed series, between a close and the next open *)
-Inductive rtry := TryNew (p':N) (hdr':list byte) (cb:cbmode) | TryOpenP (q:N) (hdropt:hdropt) (cb:cbmode).
+Inductive rtry := TryNew (p':N) (hdr':list byte) (cb:cbmode) | TryOpenP (q:N) (hdropt:hdropt) (cb:cbmode)
+  | TryOpenMissing (name2:fname) (popt:option N) (hdropt:hdropt) (cb:cbmode).     (* an open of another series, one that does not exist *)
 Definition try_op (t:rtry) : op :=
-  match t with TryNew a b c => ONew name a b [] c | TryOpenP q h c => OOpen name (Some q) h [] c end.
-Definition try_valid (t:rtry) : Prop := match t with TryNew _ _ _ => True | TryOpenP q _ _ => q <> N.of_nat p end.
+  match t with TryNew a b c => ONew name a b [] c | TryOpenP q h c => OOpen name (Some q) h [] c
+             | TryOpenMissing n2 a h c => OOpen n2 a h [] c end.
+Definition try_valid (t:rtry) : Prop :=
+  match t with TryNew _ _ _ => True | TryOpenP q _ _ => q <> N.of_nat p
+             | TryOpenMissing n2 _ _ _ => n2 ++ ext_data <> name ++ ext_data /\ n2 ++ ext_data <> name ++ ext_index end.
 
 Lemma tries_accepted : forall tries w s l rest, RelC w s l -> Forall try_valid tries ->
   (forall w' s', RelC w' s' l -> accepted w' s' rest) -> accepted w s (map try_op tries ++ rest).
 Proof.
   induction tries as [|t ts IH]; intros w s l rest RC V K; [apply K; exact RC|].
   inversion V as [|? ? Vt Vts]; subst. cbn [map app accepted].
-  destruct t as [a b c|q h c]; cbn [try_op try_valid] in *.
+  destruct t as [a b c|q h c|n2 a h c]; cbn [try_op try_valid] in *.
   - destruct (new_refused_accepted w s l a b c RC) as (OK & RC').
     split; [exact OK|]. split; [exact (relc_files _ _ _ RC')|]. split; [destruct RC' as (_ & _ & _ & _ & _ & D); exact D|].
     apply (IH _ _ l rest RC' Vts K).
   - destruct (open_other_p_accepted w s l q h c RC Vt) as (OK & RC').
+    split; [exact OK|]. split; [exact (relc_files _ _ _ RC')|]. split; [destruct RC' as (_ & _ & _ & _ & _ & D); exact D|].
+    apply (IH _ _ l rest RC' Vts K).
+  - destruct Vt as [D1 D2]. destruct (open_missing_other_accepted w s l n2 a h c RC D1 D2) as (OK & RC').
     split; [exact OK|]. split; [exact (relc_files _ _ _ RC')|]. split; [destruct RC' as (_ & _ & _ & _ & _ & D); exact D|].
     apply (IH _ _ l rest RC' Vts K).
 Qed.
@@ -697,10 +718,10 @@ End Session.
    accepted append, reads, a crash that cuts the data file inside its last line and removes the index, an append, a reopen *)
 Example history_accepted_example :
   let pay := [x01; x02; x03; x04] in
-  hvalid 4 [] [] [HOp (OPush 10 pay); HOp (OPush 70000 pay); HReopen None HdrAny CbNone; HOp (OPush 5 pay); HOp (OPush 70001 pay);
+  hvalid [x63] 4 [] [] [HOp (OPush 10 pay); HOp (OPush 70000 pay); HReopen None HdrAny CbNone; HOp (OPush 5 pay); HOp (OPush 70001 pay);
                   HOp (OReadAll (Incl 11) Unb); HOp (OReadN 2 Unb Unb); HOp (ONLines Unb (Excl 70001));
                   HCrash 3 IRm None HdrAny CbNone; HOp OLen; HOp (OPush 70001 pay); HCrash 0 (ICut 5) (Some 4%N) (HdrIs []) CbDeny; HOp OLen;
-                  HRefused [TryNew 4 [] CbNone; TryOpenP 5 HdrAny CbNone; TryNew 7 [x01] CbDeny] None HdrAny CbNone; HOp OLen].
+                  HRefused [TryNew 4 [] CbNone; TryOpenP 5 HdrAny CbNone; TryNew 7 [x01] CbDeny; TryOpenMissing [x7a] None HdrAny CbNone] None HdrAny CbNone; HOp OLen].
 Proof.
   cbv zeta.
   assert (NM : forall m, Forall (nm_sec 4) (secs_of m)) by (intros m; apply Forall_forall; intros sct _; apply nm_p4; lia).
@@ -709,7 +730,7 @@ Proof.
          | |- _ /\ _ => split
          | |- sess_op _ => constructor
          | |- Forall (nm_sec 4) _ => apply NM
-         | |- Forall (try_valid _) _ => repeat constructor; cbn [try_valid]; try exact I; try (intros Q; discriminate Q)
+         | |- Forall (try_valid _ _) _ => repeat constructor; cbn [try_valid]; try exact I; try (intros Q; discriminate Q)
          | |- True => exact I
          end; try (vm_compute; reflexivity); try lia; try (left; reflexivity); try (right; reflexivity); try reflexivity;
     try (apply N.leb_le; vm_compute; reflexivity); try (apply N.ltb_lt; vm_compute; reflexivity).
